@@ -234,9 +234,18 @@ extern "C" int vf_run_case(const uint8_t * data, size_t size)
    else
    {
       AbstractMessageIOGatewayRef gw = MakeGateway(kind, false);
+      // tunnels: in half of the cases the receiver's MTU (= the size of its heap-allocated packet buffer) is the length of the last packet plus 0..3 bytes, so that a
+      // parser that reads a few bytes past the end of a received packet leaves the buffer and ASan sees it
+      uint32 rmtu = 300;
+      if (((kind == G_TUNNEL)||(kind == G_MINITUNNEL))&&(packets.size())&&(bs.flip()))
+      {
+         rmtu = muscleMax((uint32)32, muscleMin((uint32)300, (uint32)packets.back().size()+(uint32)(bs.u8()%4)));
+         if (kind == G_TUNNEL) {PacketTunnelIOGateway * g = new PacketTunnelIOGateway(AbstractMessageIOGatewayRef(), rmtu); g->SetMaxIncomingMessageSize(1<<20); gw.SetRef(g);} else gw.SetRef(new MiniPacketTunnelIOGateway(AbstractMessageIOGatewayRef(), rmtu));
+         vf::Count("tunnel_receiver_buffer_fitted_to_the_last_packet");
+      }
       Pipe pipe, out; for (size_t i=0; i<wire.size(); i++) pipe.q.push_back((uint8)wire[i]);
       ChopIO sio(&pipe, &out, &plan); PktIO * pio = NULL;
-      if ((kind == G_TUNNEL)||(kind == G_MINITUNNEL)) {pio = new PktIO(&packets, 300); gw()->SetDataIO(DataIORef(pio));} else gw()->SetDataIO(DummyDataIORef(sio));
+      if ((kind == G_TUNNEL)||(kind == G_MINITUNNEL)) {pio = new PktIO(&packets, rmtu); gw()->SetDataIO(DataIORef(pio));} else gw()->SetDataIO(DummyDataIORef(sio));
       for (int r=0; r<3000; r++)
       {
          if (r > 400) plan.generous = true;
@@ -248,7 +257,7 @@ extern "C" int vf_run_case(const uint8_t * data, size_t size)
       }
       delivered = sink.n;
       // destructible and reusable: after an error (or not), Reset() and feed a good stream of the same kind
-      if ((kind != G_WS_SERVER)&&(kind != G_WS_CLIENT)&&(kind != G_WS_NOHANDSHAKE))
+      if ((kind != G_WS_SERVER)&&(kind != G_WS_CLIENT)&&(kind != G_WS_NOHANDSHAKE)&&(rmtu == 300))     // (a receiver fitted to a short packet cannot take the full-size good stream)
       {
          gw()->Reset();
          std::string good; std::vector<size_t> fs; std::deque<std::string> goodPk; static const uint8_t seedBytes[48] = {1, 2, 3, 4, 5, 6, 7, 8, 9, 10, 11, 12}; vf::BS gb(seedBytes, sizeof(seedBytes));
